@@ -5,6 +5,7 @@ from hypothesis import strategies as st
 from vlib import strat as S, oracles as O, harness
 
 ID = "C12"
+TARGETED = True     # thorough tier uses hypothesis.target on the residual/tolerance ratios
 EXHAUSTIVE = True
 RULE = ("exhaustive: systems 1..7, every operator and every ordered pair (closure, inverses, duplicates, unimodularity, "
         "pairing rot[i].B.perm[i]=B, cache); Hypothesis: pairs of rotation specs (plus a common rotation), crystal "
@@ -145,6 +146,8 @@ def check(case, ctx):
         ctx.event("input-checks-switched-off")
     ctx.keep("Umis(previous pair)", symmetry.Umis(U2, np.asarray(Q, U1.dtype) if dt == "float32" else Q, k))
     mis_obj = ctx.keep("Umis", symmetry.Umis(U1, U2, k))
+    if not case.get("checks_off"):
+        ctx.later("Umis", symmetry.Umis, np.array(U1), np.array(U2), k)
     mis = np.asarray(mis_obj, float)
     if mis.shape != (N, 2):
         ctx.fail("umis-shape", "Umis shape %r for system %d" % (mis.shape, k))
